@@ -64,10 +64,10 @@ def gen(tier, rng):
                 w, h = (o, e) if axis == "h" else (e, o)
                 for (start, size, parts) in triples:
                     # every container kind sees every triple at small extents; rotate beyond
-                    vs = variants if e <= 4 else [variants[n % len(variants)], variants[(n + 3) % len(variants)]]
+                    vs = variants if e <= 4 else [rz.pick(n, 124, variants), variants[(n + 3) % len(variants)]]
                     for (k, m) in vs:
                         n += 1
-                        cases.append(mk(k, m, w, h, PADS[n % len(PADS)], (axis, start, size, parts)))
+                        cases.append(mk(k, m, w, h, rz.pick(n, 125, PADS), (axis, start, size, parts)))
     # split-of-split compositions (seeded)
     m = 6000 if tier == "quick" else 60000
     for _ in range(m):
